@@ -47,6 +47,8 @@ fn arg_value(args: &[String], name: &str) -> Option<String> {
 macro_rules! dispatch {
     ($id:expr, $f:ident ( $($a:expr),* )) => {
         match $id {
+            "C01" => Some(driver::$f::<props::c01::C01>($($a),*)),
+            "C10" => Some(driver::$f::<props::c10::C10>($($a),*)),
             "C24" => Some(driver::$f::<props::c24::C24>($($a),*)),
             "C25" => Some(driver::$f::<props::c25::C25>($($a),*)),
             "C26" => Some(driver::$f::<props::c26::C26>($($a),*)),
